@@ -222,6 +222,14 @@ theorem legacy_regex_raises (rx : Rx) (i : Info) (v : Var) (pat : String) (rest 
     evalImpl Quirks.legacy rx ⟨.regex v pat, rest⟩ i = none := by
   simp [evalImpl, compile, Quirks.legacy, Expr.atoms, Atom.isRegex]
 
+/-- F14 → deletion, for every workspace: on the pinned source a `not in` filter selects every job, so
+    `jobs clean --filter 'v not in [...]' --perform` deletes every finished job whatever its tags. -/
+theorem legacy_notin_clean_ignores_tags (rx : Rx) (sc : String → String) (L : Layout) (v : Var) (cs : List String) :
+    cleanImpl { Quirks.none with memberObj := true } rx sc L { filter := some ⟨.notIn v cs, []⟩, perform := true }
+      = some { L with jobs := L.jobs.filter (fun j => !isFinished (stateSpec j)) } := by
+  simp [cleanImpl, compile, Expr.atoms, Atom.isRegex, Quirks.none, removesImpl, summary, Obj.filter, Atom.impl,
+    cleanEnabled, stateImpl, stateSpec]
+
 /-- F14 → deletion: `jobs clean --filter 'model not in ["bm25"]' --perform` on the pinned source also
     deletes the `bm25` jobs. -/
 theorem legacy_notin_clean_deletes_unselected :
